@@ -435,7 +435,7 @@ def coq_probes(ps):
 
 
 HEADER = """From Coq Require Import ZArith List String. Import ListNotations. Open Scope Z_scope.
-Require Import Rig.Generated.GenMemOps Rig.Model.Base Rig.Model.Machine Rig.Model.MemOps.
+Require Import Rig.Generated.GenMemOps Rig.Model.Base Rig.Model.Machine Rig.Model.MemOps Rig.Model.MemOpsState.
 Definition short (l : list Z) : list Z := if zlen l <=? 96 then l else [].
 Fixpoint run_ops (E : env) (M : machine) (ops : list (chip * op)) (ps : list (chip * Z * Z)) (full : bool) :=
   match ops with
@@ -450,13 +450,45 @@ Fixpoint run_ops (E : env) (M : machine) (ops : list (chip * op)) (ps : list (ch
       | OutOfFuel => [(3, 0, 0, 0, 0, 0, [], 0, [])]
       end
   end.
+Fixpoint run_ops_ct (ct : controller) (E : env) (M : machine) (ops : list (chip * op)) (ps : list (chip * Z * Z)) (full : bool) :=
+  match ops with
+  | [] => []
+  | (c, o) :: rest =>
+      match st_run_op ct E M c o with
+      | Ok (tr, out, M') =>
+          (0, 0, zlen tr, trace_digest tr, zlen out, digest out, short out, probe M' ps,
+           (if full then map request_fields tr else [])) :: run_ops_ct ct E M' rest ps full
+      | Failed k => [(1, k, 0, 0, 0, 0, [], 0, [])]
+      | OtherError => [(2, 0, 0, 0, 0, 0, [], 0, [])]
+      | OutOfFuel => [(3, 0, 0, 0, 0, 0, [], 0, [])]
+      end
+  end.
 Definition mkreq (x y p : Z) (c : cmd) : request := {| rq_chip := (x, y); rq_core := p; rq_cmd := c |}.
 Definition validate (buffer w h seed : Z) over (tr : list (request * reply)) (ps : list (chip * Z * Z)) :=
   let '(M, bad) := replay buffer (torus_nbr w h) (pattern_machine seed over) tr in (bad, probe M ps).
 """
 
 
+def coq_sfile(st):
+    """the tables of a parsed struct file as the model's sfile: byte sizes as the accessors build them"""
+    sv = vlist("(%s, (%s, %s))" % (coq_str(f), zlit(off), zlit(unit * count)) for f, (off, unit, count, kind) in st["sv"][2].items())
+    vc = vlist("(%s, (%s, %s))" % (coq_str(f), zlit(off), zlit(unit)) for f, (off, unit, count, kind) in st["vcpu"][2].items())
+    return "{| sf_sv_base := %s; sf_sv := %s; sf_vcpu_size := %s; sf_vcpu := %s |}" % (
+        zlit(st["sv"][0]), sv, zlit(st["vcpu"][1]), vc)
+
+
+def case_structs(case, structs):
+    return parse_struct_text(case["struct_text"].encode("latin-1")) if case.get("struct_text") else structs
+
+
 def coq_case(case, structs, probes, full):
+    if case.get("struct_text"):          # booted with this struct file: the controller's tables are replaced
+        st = case_structs(case, structs)
+        return "run_ops_ct (ctl_boot %s ctl_new) (mk_env %s (torus_nbr %s %s)) (pattern_machine %s %s) %s %s %s" % (
+            coq_sfile(st), zlit(case["buffer"]), zlit(case["dims"][0]), zlit(case["dims"][1]), zlit(case["seed"]),
+            coq_over(case.get("over", [])),
+            vlist("(%s, %s)" % (coq_chip(op_chip(case, i)), coq_op(o, st)) for i, o in enumerate(case["ops"])),
+            coq_probes(probes), "true" if full else "false")
     return "run_ops (mk_env %s (torus_nbr %s %s)) (pattern_machine %s %s) %s %s %s" % (
         zlit(case["buffer"]), zlit(case["dims"][0]), zlit(case["dims"][1]), zlit(case["seed"]),
         coq_over(case.get("over", [])),
@@ -977,7 +1009,7 @@ def gen_rebooted(rng, default_text):
     text = moved_struct_text(rng, default_text)
     st = parse_struct_text(text)
     B = rng.choice([4, 16, 256])
-    c = base_case(rng, B, rng.choice([1, 2, 8]), [], tag="rebooted", preset=True, nomodel=True)
+    c = base_case(rng, B, rng.choice([1, 2, 8]), [], tag="rebooted", preset=True)
     c["struct_text"] = text.decode("latin-1")
     vb = 0x67800000 + 4 * rng.randrange(1 << 16)
     ops = []
@@ -1132,19 +1164,19 @@ def run(chk, args):
         singles = gen_fields(rng, structs, [4, 5, 8, 16, 248, 256], windows)
         singles += gen_fills(rng, [4, 16, 256] if quick else [4, 5, 8, 16, 248, 256], windows,
                              list(range(0, 41)) + [252, 256, 260, 1024, 1027])
-        singles += gen_links(rng, [4, 5, 7, 8, 16, 18, 248, 256] if quick else
+        singles += gen_links(rng, [4, 5, 7, 8, 16, 18, 256] if quick else
                              [4, 5, 6, 7, 8, 9, 12, 16, 18, 24, 56, 120, 243, 248, 255, 256, 300])
-        singles += [gen_faulted(rng, structs, [4, 5, 8, 16, 24]) for _ in range(260 if quick else 3000)]
-        singles += [gen_history(rng, structs, faulted=(i % 4 == 3)) for i in range(240 if quick else 3000)]
+        singles += [gen_faulted(rng, structs, [4, 5, 8, 16, 24]) for _ in range(200 if quick else 3000)]
+        singles += [gen_history(rng, structs, faulted=(i % 4 == 3)) for i in range(160 if quick else 3000)]
         singles += [gen_bigbuffer(rng, B) for B in [999, 1000, 1024, 2000] for _ in range(4 if quick else 40)]
         singles += [gen_discover(rng, structs) for _ in range(160 if quick else 2000)]
         default_text = open(os.path.join(lib.REPO, "rig", "boot", "sark.struct"), "rb").read()
         singles += [gen_seqwrap(rng) for _ in range(24 if quick else 300)]
         singles += [gen_rebooted(rng, default_text) for _ in range(60 if quick else 600)]
-        singles += [gen_contexts(rng, structs) for _ in range(120 if quick else 1500)]
+        singles += [gen_contexts(rng, structs) for _ in range(90 if quick else 1500)]
         singles += [gen_bigfill(rng, k) for k in range(10 if quick else 60)]
         singles += gen_names(rng, structs)
-        singles += [gen_unrecoverable(rng, structs) for _ in range(200 if quick else 3000)]
+        singles += [gen_unrecoverable(rng, structs) for _ in range(150 if quick else 3000)]
         singles += [gen_malformed(rng) for _ in range(60 if quick else 300)]
         singles += [gen_nonterm(rng) for _ in range(3)]
         if not quick:
@@ -1225,9 +1257,7 @@ def run(chk, args):
                 c = g[0]
                 if results[id(c)] in (["hang"], ["skipped"]) and c["kind"] != "nonterm":
                     continue
-                if c.get("nomodel"):         # booted with another struct file: outside the model (oracle + trace validator)
-                    continue
-                ps = probe_windows(c, structs)
+                ps = probe_windows(c, case_structs(c, structs))
                 full = bool(c.get("plan"))
                 exprs.append(coq_case(c, structs, ps, full))
                 meta.append(("model", g, ps))
@@ -1244,6 +1274,8 @@ def run(chk, args):
                         continue
                     if c.get("tag") == "sampled" and k % 50:
                         continue
+                    if quick and c.get("tag") in ("sv", "fill", "link", "vcpu") and k % 3:
+                        continue
                     ps = probe_windows(c, parse_struct_text(c["struct_text"].encode("latin-1"))
                                        if c.get("struct_text") else structs)
                     e = coq_trace(c, res, ps)
@@ -1251,7 +1283,12 @@ def run(chk, args):
                         exprs.append(e)
                         meta.append(("trace", c, ps))
             dbg("coq cases written (%d)" % len(exprs))
-            vals = chk.coq_eval(HEADER, exprs, shard=250, timeout=2400)
+            # spread the heavy cases (they come in runs) evenly over the shards that are evaluated in parallel
+            nsh = max(1, (len(exprs) + 199) // 200)
+            perm = sorted(range(len(exprs)), key=lambda i: (i % nsh, i))
+            exprs = [exprs[i] for i in perm]
+            meta = [meta[i] for i in perm]
+            vals = chk.coq_eval(HEADER, exprs, shard=200, timeout=2400)
             dbg("coq evaluated")
             n_model = n_trace = 0
             for (what, obj, ps), v in zip(meta, vals):
@@ -1276,7 +1313,7 @@ def run(chk, args):
                     res = results[id(c)]
                     chk.traces_validated += 1
                     n_model += 1
-                    why = compare(c, res, v, ps, structs)
+                    why = compare(c, res, v, ps, case_structs(c, structs))
                     if why:
                         chk.disagree("%s (buffer %d, window %d, ops %r)" % (why, c["buffer"], c["window"], c["ops"]),
                                      dict(case=c, model=repr(v)[:600],
@@ -1308,7 +1345,7 @@ def run(chk, args):
         "whole MiB; the simulator and the oracle keep them as intervals); every application name whose utf-8 encoding "
         "fits the 16-byte field, non-ASCII included, written and read back (names that do not fit are in the malformed "
         "stream); a connection whose 16-bit sequence counter wraps in the middle of a multi-packet write / read; a "
-        "controller re-booted with a struct file whose sv / vcpu fields have moved (oracle and trace validator only); "
+        "controller re-booted with a struct file whose sv / vcpu fields have moved (model: Model/MemOpsState.v ctl_boot); "
         "calls whose x, y, p come from kept Context objects entered again under other enclosing contexts; "
         "unrecoverable schedules (1-3 tries, 55% of the transmissions lost, 10% refused with a fatal return "
         "code): the call may raise, a normal return must still be exact. "
